@@ -621,7 +621,11 @@ class IteratorQueue(IterableQueue[_ValueT]):
       self._states_lock.release()
 
   def get_batch(
-      self, max_batch_size: int = 0, *, block: bool = False
+      self,
+      max_batch_size: int = 0,
+      *,
+      block: bool = False,
+      return_partial: bool = False,
   ) -> list[_ValueT]:
     """Gets elements from the queue, waits for timeout if empty.
 
@@ -631,6 +635,10 @@ class IteratorQueue(IterableQueue[_ValueT]):
         elements.
       block: Whether to block until there are `max_batch_size` elements before
         returning, only applicable when `max_batch_size` is positive.
+      return_partial: Whether to return the elements already dequeued by this
+        call when the enqueuer's exception is observed, the (persistent)
+        exception is then raised by the next call. By default the exception is
+        raised immediately.
 
     Returns:
       A list of dequeued elements.
@@ -664,9 +672,11 @@ class IteratorQueue(IterableQueue[_ValueT]):
           ) from e
         except Exception as e:  # pylint: disable=broad-exception-caught
           exhausted = is_stop_iteration(e)
-          # Returns the elements already dequeued first, the (persistent)
-          # exception is raised by the next call.
-          if result or (not exhausted and self.ignore_error):
+          if (
+              (exhausted and result)
+              or (return_partial and result)
+              or (not exhausted and self.ignore_error)
+          ):
             break
           raise e
     with self._enqueue_lock:
